@@ -50,7 +50,11 @@ class GeckoStructAccessor(Observable):
 
         if maxitems is not None:
             self.maxitems = int(maxitems)
-            if self.maxitems > 8:
+            if self.maxitems > 32:
+                self.bitmask = 63
+            elif self.maxitems > 16:
+                self.bitmask = 31
+            elif self.maxitems > 8:
                 self.bitmask = 15
             elif self.maxitems > 4:
                 self.bitmask = 7
